@@ -631,20 +631,26 @@ class Sim:
 
     # -- helpers -------------------------------------------------------------------
     def _drain(self):
-        """After a task failed: let every other in-flight task run to completion (deterministically)."""
-        for w2 in self.workers:
-            guard = 0
-            while w2.state == "running":
-                if w2.blocked_on is not None and w2.blocked_on.locked():
-                    break
-                w2.sem.release()
-                self.director_sem.acquire()
-                guard += 1
-                if guard > self.max_steps:
-                    break
-            if w2.state == "done":
-                w2.state = "idle"
-                w2.result = None
+        """After a task failed: let every other in-flight task run to completion (deterministically).
+        Workers that stay blocked on a lock whose holder never releases it are abandoned."""
+        guard = 0
+        while True:
+            progressed = False
+            for w2 in self.workers:
+                if w2.state == "running" and (w2.blocked_on is None or not w2.blocked_on.locked()):
+                    w2.sem.release()
+                    self.director_sem.acquire()
+                    progressed = True
+                if w2.state == "done":
+                    w2.state = "idle"
+                    w2.result = None
+                    w2.job = None
+            guard += 1
+            if not any(w2.state == "running" for w2 in self.workers):
+                break
+            if not progressed or guard > self.max_steps:
+                self.workers = [w2 for w2 in self.workers if w2.state != "running"]
+                break
 
     def _abort_workers(self):
         pass  # blocked workers stay parked; the process exits after the run
